@@ -305,6 +305,95 @@ def sdp_nesting_mutants(quick: bool) -> list[tuple]:
     return out
 
 
+SDP_SIBLINGS = {'eseq': h('35 00'), 'ealt': h('3d 00'), 'nil': h('00'), 'seq1': h('35 03 19 0100')}
+SDP_MIXED_DEPTHS = (31, 32, 33, 40, 200, 1000, 5000)
+
+
+def sdp_mixed(depth: int, k: int, sib: str, mirror: bool, alt: bool) -> bytes | None:
+    """Wide + deep: every level holds k completed siblings and then (mirror: first) the deeper child; all
+    sizes consistent.  Built iteratively from the inside; None when a size does not fit 16 bits."""
+    base = 0x3D if alt else 0x35
+    sibs = SDP_SIBLINGS[sib] * k
+    inner = bytes([base, 0])  # innermost: empty container
+    for _ in range(depth):
+        body = (inner + sibs) if mirror else (sibs + inner)
+        n = len(body)
+        if n <= 0xFF:
+            inner = bytes([base, n]) + body
+        elif n <= 0xFFFF:
+            inner = bytes([base + 1]) + n.to_bytes(2, 'big') + body
+        else:
+            return None
+    return inner
+
+
+def sdp_mixed_mutants(server: bool) -> list[tuple]:
+    """The mixed shapes as raw channel payload, as service search pattern and as attribute-id list of every
+    request PDU (server bed), or as the attribute list(s) of the two attribute response PDUs (client bed)."""
+    out = []
+    skipped = 0
+    for depth in SDP_MIXED_DEPTHS:
+        for k in (1, 2):
+            for sib in SDP_SIBLINGS:
+                for mirror in (False, True):
+                    for alt in (False, True):
+                        e = sdp_mixed(depth, k, sib, mirror, alt)
+                        lab = f'depth={depth}|k={k}|{sib}|{"childfirst" if mirror else "childlast"}|{"alt" if alt else "seq"}'
+                        if e is None or len(e) > 60000:
+                            skipped += 1
+                            continue
+                        out.append((f'sdp.mixed_raw|{lab}', 'dyn', e))
+                        if server:
+                            out.append((f'sdp.mixed_pattern02|{lab}', 'dyn', sdp_pdu(0x02, 0x0105, e + h('000a 00'))))
+                            out.append((f'sdp.mixed_pattern06|{lab}', 'dyn', sdp_pdu(0x06, 0x0106, e + h('ffff 35 05 0a 0000ffff 00'))))
+                            out.append((f'sdp.mixed_attrs04|{lab}', 'dyn', sdp_pdu(0x04, 0x0107, h('00010001 ffff') + e + b'\x00')))
+                            out.append((f'sdp.mixed_attrs06|{lab}', 'dyn', sdp_pdu(0x06, 0x0108, h('35 03 19 0100 ffff') + e + b'\x00')))
+                        else:
+                            n = len(e).to_bytes(2, 'big')
+                            out.append((f'sdp.mixed_rsp05|{lab}', 'dyn', sdp_pdu(0x05, 0x0109, n + e + b'\x00')))
+                            out.append((f'sdp.mixed_rsp07|{lab}', 'dyn', sdp_pdu(0x07, 0x010A, n + e + b'\x00')))
+    return out
+
+
+def sdp_nesting_response_mutants() -> list[tuple]:
+    """Pure chains (sdp_nested) as the attribute lists of the two attribute responses (client bed)."""
+    out = []
+    for depth in (1, 31, 32, 33, 120, 1000, 10000):
+        for consistent in (True, False):
+            for sb in (1, 2, 4):
+                try:
+                    e = sdp_nested(depth, consistent, sb)
+                except ValueError:
+                    continue
+                if len(e) > 60000 or (consistent and sb == 1 and depth > 120) or (consistent and sb == 2 and 3 + 3 * depth > 0xFFFF):
+                    continue
+                for pid in (0x05, 0x07):
+                    out.append((f'sdp.nested_rsp{pid:02x}|depth={depth}|sz={sb}|{"ok" if consistent else "bad"}', 'dyn',
+                                sdp_pdu(pid, 0x010B, len(e).to_bytes(2, 'big') + e + b'\x00')))
+    return out
+
+
+HCI_FRAMING = {0x01: (2, 1), 0x02: (2, 2), 0x03: (2, 1), 0x04: (1, 1), 0x05: (2, 2)}  # type -> (octets before length, length size)
+
+
+def hci_well_framed(pkt: bytes) -> bool:
+    """Would a byte-stream transport deliver exactly these bytes as ONE packet and stay in step?  (A lone
+    octet that is no packet type is rejected by a framer without consuming anything else.)"""
+    if len(pkt) == 0:
+        return False
+    info = HCI_FRAMING.get(pkt[0])
+    if info is None:
+        return len(pkt) == 1
+    pre, lsz = info
+    if len(pkt) < 1 + pre + lsz:
+        return False
+    n = int.from_bytes(pkt[1 + pre : 1 + pre + lsz], 'little')
+    if pkt[0] == 0x05:
+        if n & 0xC000:
+            return False  # reserved bits of the ISO length: framers differ, not used here
+    return len(pkt) == 1 + pre + lsz + n
+
+
 def rfcomm_seeds(live_dlci: int, new_dlci: int) -> list[Seed]:
     """Frames as sent by the session initiator (C/R = 1 for commands)."""
     S = []
